@@ -9,7 +9,7 @@ from __future__ import annotations
 
 import ast
 
-from .c09_blocks import Block, find_block, norm as bnorm
+from .c09_blocks import Block, Facts, find_block, expand as bexpand, norm as bnorm
 from .c09_terms import (Unsup, NONE, TRUE, FALSE, ELL, FULL, ZEROS, EMPTY, const, is_const, is_tag, subterms, tmap, is_slice, is_basic_item,
                         merge_sel, relation, mkidx, shape_after, show, MP_NAMES, MUT_METHODS)
 
@@ -661,7 +661,16 @@ class Sim:
             if name in o.local_names:
                 return self.lookup(name, o)
             o = getattr(o, "outer", None)
-        return self.lookup_module(name, fr.rel)
+        v = self.lookup_module(name, fr.rel)
+        if v == ("s", name):
+            mi = self.world.mods[fr.rel]
+            import builtins as _b
+            if not mi.star_import and name not in mi.bound_names and name not in mi.proc_globals and not hasattr(_b, name) and \
+                    not name.startswith("__"):
+                # bound nowhere: the read raises NameError
+                self.unbound_locals.append((self.ctx, self.cur_node, name, getattr(fr.fn, "name", "<lambda>")))
+                return ("unboundlocal", name)
+        return v
 
     def bind(self, name, v, fr):
         if name in fr.globals_decl:
@@ -1026,6 +1035,8 @@ class Sim:
         try:
             if isinstance(fn, ast.Lambda):
                 ret = self.ev(fn.body, fr)
+            elif any(isinstance(n, (ast.Yield, ast.YieldFrom)) for n in _walk_scope(fn)):
+                ret = self.ev(self.generator_as_genexp(fn), fr)
             else:
                 self.exec_block(fn.body, fr)
                 ret = NONE
@@ -1035,6 +1046,19 @@ class Sim:
             self.depth -= 1
             self.cur_node = saved
         return ret
+
+    @staticmethod
+    def generator_as_genexp(fn):
+        """def f(...): for x in it: yield e   is the generator expression  (e for x in it)"""
+        body = [b for b in fn.body if not (isinstance(b, ast.Expr) and isinstance(b.value, ast.Constant))]
+        if len(body) == 1 and isinstance(body[0], ast.For) and not body[0].orelse and len(body[0].body) == 1:
+            y = body[0].body[0]
+            if isinstance(y, ast.Expr) and isinstance(y.value, ast.Yield) and y.value.value is not None:
+                g = ast.GeneratorExp(elt=y.value.value, generators=[ast.comprehension(target=body[0].target, iter=body[0].iter, ifs=[], is_async=0)])
+                return ast.copy_location(g, body[0])
+        if len(body) == 1 and isinstance(body[0], ast.Expr) and isinstance(body[0].value, ast.YieldFrom):
+            return body[0].value.value
+        raise Unsup(f"generator function {fn.name} (only `for x in it: yield e` is followed)")
 
     def all_refs(self, v):
         return [x for x in subterms(v) if is_tag(x, "ref")]
@@ -1079,6 +1103,15 @@ class Sim:
                 o.entries[const(k)] = v
             o.meta["ns"] = True
             return ("dref", o.oid)
+        if name in ("numpy.copy", "numpy.array", "numpy.asarray", "numpy.ascontiguousarray", "numpy.asanyarray") and len(args) == 1 and not kws and \
+                is_tag(args[0], "ref") and self.heap[args[0][1]].kind in ("raw", "array", "fresh", "derived"):
+            # a new array with the same content (layout and ownership are not values)
+            o = self.new_obj("array" if name in ("numpy.copy", "numpy.array") else "fresh", self.content(args[0]), self.ref_shape(args[0]))
+            return ("ref", o.oid, None, ())
+        if name in ("builtins.tuple", "builtins.list") and len(args) == 1 and not kws and is_tag(args[0], "tuple", "list"):
+            return (name.split(".")[1],) + tuple(args[0][1:])
+        if name in ("builtins.tuple", "builtins.list") and not args and not kws:
+            return (name.split(".")[1],)
         if name == "functools.partial" and args and "**" not in kws:
             return ("partial", args[0], tuple(args[1:]), tuple(sorted(kws.items())))
         if name == "builtins.slice" and 1 <= len(args) <= 3 and not kws:
@@ -1088,6 +1121,13 @@ class Sim:
         if name == "numpy.reshape" and len(args) == 2 and not kws and is_tag(args[0], "ref") and self.heap[args[0][1]].kind == "raw" \
                 and args[0][2] is None and args[0][3] == ():
             return self.call_method(args[0], "reshape", [args[1]], {}, node)
+        if name == "multiprocessing.get_context":
+            return ("mod", "multiprocessing")            # the context object offers the same Pool / RawArray
+        if name in ("multiprocessing.Array", "multiprocessing.sharedctypes.Array") and len(args) == 2 and not (set(kws) - {"lock"}):
+            name, kws = "multiprocessing.RawArray", {}          # a RawArray behind a lock wrapper (`.get_obj()` hands out the RawArray)
+        if name == "numpy.ctypeslib.as_array" and len(args) == 1 and not kws and is_tag(args[0], "ref") and self.heap[args[0][1]].kind == "raw":
+            self.views.append((args[0][1], None, node))         # numpy view of the ctypes array, element type taken from the ctype
+            return ("ref", args[0][1], None, ())
         if name == "multiprocessing.RawArray" or name == "multiprocessing.sharedctypes.RawArray":
             if len(args) != 2:
                 raise Unsup("RawArray arguments")
@@ -1095,9 +1135,17 @@ class Sim:
             o.meta["ctype"] = self.snap(args[0])
             o.meta["size"] = self.snap(args[1])
             return ("ref", o.oid, None, ())
-        if name in ("multiprocessing.Pool", "multiprocessing.pool.Pool"):
+        if name in ("multiprocessing.Pool", "multiprocessing.pool.Pool", "concurrent.futures.ProcessPoolExecutor",
+                    "concurrent.futures.process.ProcessPoolExecutor"):
             p = Pool(len(self.pools) + 1)
-            names = ["processes", "initializer", "initargs", "maxtasksperchild"]
+            p.executor = "Executor" in name
+            names = ["max_workers", "mp_context", "initializer", "initargs"] if p.executor else ["processes", "initializer", "initargs", "maxtasksperchild"]
+            if p.executor and "max_workers" in kws:
+                kws = dict(kws, processes=kws["max_workers"])
+                del kws["max_workers"]
+            elif p.executor and args:
+                kws = dict(kws, processes=args[0])
+                args = [NONE] + list(args[1:])
             got = dict(zip(names, args))
             got.update(kws)
             p.processes = self.snap(got.get("processes", NONE))
@@ -1188,6 +1236,14 @@ class Sim:
                     raise Unsup("pool.%s arguments" % name)
                 return self.launch(p, got["func"], got["iterable"], node, sync=(name in ("map", "starmap")), ordered=(name != "imap_unordered"),
                                    star=(name == "starmap"))
+            if getattr(p, "executor", False):
+                if name == "map" and args and len(args) == 2 and not (set(kws) - {"chunksize", "timeout"}):
+                    # Executor.map: results in task order; leaving the `with` block / shutdown() waits for every task
+                    return self.launch(p, args[0], args[1], node, sync=False, ordered=True)
+                if name == "shutdown" and kws.get("wait", args[0] if args else TRUE) == TRUE:
+                    self.pool_end(p, node)
+                    return NONE
+                raise Unsup(f"executor method {name}")
             if name in ("terminate", "join"):
                 self.pool_end(p, node)
                 return NONE
@@ -1207,6 +1263,10 @@ class Sim:
             if name in MUT_METHODS:
                 self.store(recv, self._callterm(("attr", self.content(recv), name), args, kws), how="." + name)
                 return NONE
+            if name == "copy" and not args and not kws:
+                return self.call_ext("numpy.copy", [recv], {}, node)
+            if name == "get_obj" and not args and not kws and obj.kind == "raw":
+                return recv
             return self.method_value(recv, name, args, kws, node)
         if is_tag(recv, "dref") and self.heap[recv[1]].meta.get("ns"):
             obj = self.heap[recv[1]]
@@ -1368,7 +1428,7 @@ class Sim:
             L.lv = lv
             L.elem = elem(lv)
             L.block = None
-            fb = find_block(self.snap(L.elem, record=False), lv)
+            fb = find_block(self.snap(L.elem, record=False), lv, pool.processes)
             if fb is not None:
                 # the element holds (F(k), F(k+1)): the task owns the indices range(F(k), F(k+1)); k is named apart from the indices
                 blk = ("blk", L.lid)
@@ -1398,6 +1458,10 @@ class Sim:
     def pool_end(self, pool, node):
         if pool.ended:
             return
+        if getattr(pool, "executor", False):
+            for L in self.launches:
+                if L.pid == pool.pid:
+                    self.drain(L.lid)          # shutdown(wait=True) returns when every submitted task has run
         pool.ended = True
         pool.end_seq = self.tick()
         pool.end_node = node
@@ -1433,6 +1497,8 @@ class Sim:
         elif isinstance(t, ast.Subscript):
             base = self.ev(t.value, fr)
             items = self.index_items(t.slice, fr)
+            if any(is_tag(x, "unboundlocal") for it in items for x in subterms(it)):
+                return          # the index reads a name that is not bound: the statement raises (recorded in unbound_locals)
             if is_tag(base, "ref"):
                 dst = self.subref(base, items)
                 if is_tag(v, "iterd") and self.store_comp(dst, v):
@@ -1609,9 +1675,10 @@ class Sim:
             self.exec_block(st.orelse, fr)
             return
         L = self.launches[self.ctx[1] - 1] if self.ctx[0] == "task" else None
-        if L is not None and L.block is not None and len(self.frames) == 1 and self.frames[0].fid == L.fid and \
+        if L is not None and L.block is not None and self.frames and self.frames[-1].fid == L.fid and \
                 is_tag(itv, "call") and itv[1] == ("ext", "builtins.range") and len(itv[2]) == 2 and not itv[3] and \
-                bnorm(self.snap(itv[2][0], record=False)) == L.block.start and bnorm(self.snap(itv[2][1], record=False)) == L.block.stop:
+                bexpand(bnorm(self.snap(itv[2][0], record=False)), L.block.facts) == L.block.start and \
+                bexpand(bnorm(self.snap(itv[2][1], record=False)), L.block.facts) == L.block.stop:
             # the loop over the task's own block: together with the task number it enumerates the indices F(0) .. F(n) - 1 once each (provided
             # the edges do not decrease, which C09-R1 demands): the body is executed for the generic index
             L.block.used += 1
